@@ -26,7 +26,7 @@ RULE = ("Zone ids: Hypothesis samples from all ids known to both tz libraries (q
         "DTSTAMP/CREATED/LAST-MODIFIED/ACKNOWLEDGED (add and descriptors) are written as astimezone(UTC) with Z. Non-trivial: zone "
         "!= UTC and wall time within a day of a transition, or list/period shape; distinct by hash.")
 ASSUMPTIONS = ["tzdata as installed is the ground truth for offsets", "zone ids known to both zoneinfo and pytz (so that every source x provider pair is meaningful)"]
-REQUIRED_CLASSES = ["near-transition", "in-gap-or-fold", "shape:single", "shape:list", "shape:rdate-period", "shape:freebusy", "shape:utc-prop", "src:zoneinfo",
+REQUIRED_CLASSES = ["history:same-instant-in-another-zone", "near-transition", "in-gap-or-fold", "shape:single", "shape:list", "shape:rdate-period", "shape:freebusy", "shape:utc-prop", "src:zoneinfo",
                     "src:pytz", "src:dateutil", "zone:utc"]
 
 UTC = timezone.utc
@@ -113,6 +113,19 @@ def judge(case):
     naive = datetime(*wall)
     dt = mk_dt(src, zone, wall, case.get("fold", 0))   # fold=1: the second occurrence of a repeated wall time (PEP 495)
     is_utc = zone == "UTC"
+    if case.get("twin_zone"):
+        # history: the same instant, expressed in another zone (the two date-times compare and hash equal), was written and
+        # read in this process just before
+        try:
+            z2 = case["twin_zone"]
+            tz2 = pytz.timezone(z2) if src == "pytz" else dateutil.tz.gettz(z2) if src == "dateutil" else zoneinfo.ZoneInfo(z2)
+            pre = Event()
+            pre.add("dtstart", dt.astimezone(tz2))
+            pre.add("exdate", [dt.astimezone(tz2)])
+            pre.add("dtstamp", dt.astimezone(tz2))
+            Event.from_ical(pre.to_ical())
+        except Exception:  # noqa: BLE001 - only what follows is judged
+            pass
     # an explicit period end one hour later is only well defined away from offset changes (start < end as instants in every
     # provider's reading); next to a transition the duration form is used instead
     span = timedelta(days=case.get("end_days", 0), hours=1)       # explicit ends may lie days later, across offset changes
@@ -276,6 +289,8 @@ def info(case):
     nt = case["shape"] in ("list", "rdate-period", "freebusy")
     if case.get("fold"):
         classes.append("fold=1")
+    if case.get("twin_zone"):
+        classes.append("history:same-instant-in-another-zone")
     if zone != "UTC":
         if near_transition(zone, case["wall"]):
             classes.append("near-transition")
@@ -315,6 +330,8 @@ def cases(draw):
     src = draw(st.sampled_from(["zoneinfo", "zoneinfo", "pytz", "pytz", "dateutil"]))
     shape = draw(st.sampled_from(["single", "single", "list", "rdate-period", "freebusy", "utc-prop"]))
     case = {"provider": provider, "src": src, "zone": zone, "shape": shape, "wall": draw(walls_for(zone)), "fold": draw(st.sampled_from([0, 0, 1]))}
+    if draw(st.integers(0, 3)) == 0:
+        case["twin_zone"] = draw(st.sampled_from(["UTC", "Europe/Berlin", "America/New_York", "Asia/Kolkata", "Etc/GMT+5", "Australia/Lord_Howe"]))
     if shape == "single":
         case["name"] = draw(st.sampled_from(["DTSTART", "DTEND", "DUE", "RECURRENCE-ID"]))
     elif shape == "list":
